@@ -180,7 +180,7 @@ func runC11(c *core.Ctx) {
 		}
 		frames = append(frames, f)
 		var ps [][]byte
-		c.Guard("codecs.VP8Payloader.Payload", func() { ps = pay.Payload(uint16(mtu), f) })
+		c.Guard("codecs.VP8Payloader.Payload", func() { ps = pay.Payload(uint16(mtu), spare(t, f)) })
 		if len(ps) > 1 {
 			fragmented = true
 			c.Probe("fragmented-frame")
@@ -413,7 +413,7 @@ func runC12(c *core.Ctx) {
 		}
 		frames = append(frames, f)
 		var ps [][]byte
-		c.Guard("codecs.VP9Payloader.Payload", func() { ps = pay.Payload(uint16(mtu), f.data) })
+		c.Guard("codecs.VP9Payloader.Payload", func() { ps = pay.Payload(uint16(mtu), spare(t, f.data)) })
 		if len(ps) == 0 {
 			c.Violate("lossless", "C12/no-payload-for-frame", "frame %d (%d bytes, profile %d key=%v) produced no payload at MTU %d flex=%v", k, len(f.data), f.profile, f.key, mtu, sendFlex)
 		}
